@@ -185,9 +185,11 @@ def permute_circuit(rng, c, name=None):
 
 def gen_circuit(rng, **kw):
     bkw = {k: kw.pop(k) for k in ('fork_style', 'branchforks') if k in kw}
-    permute = kw.pop('permute', False)
+    permute = kw.pop('permute', None)
     a = gen_abstract(rng, **kw)
     c = build_circuit(rng, a, **bkw)
+    if permute is None:
+        permute = rng.random() < 0.3     # arbitrary node / line index orders (forks before cells, state elements last ...)
     if permute:
         c = permute_circuit(rng, c)
     return c, a
